@@ -2,8 +2,9 @@ import N0Verif.Proofs.Compare
 /-!
 The default (keyed, unordered) comparison — `cfg = Cfg.default fl false` — reports no difference
 iff the two trees are equal up to the order of the non-record items inside each list
-(`eqv`), provided `str()` does not collide on the non-record list items (finding C07-b) and the
-non-record list items are self-equivalent (true whenever dictionaries have unique keys).
+(`eqv`), provided the key of the non-record list items — their JSON text with sorted keys (fixes C07-b, C07-c) —
+identifies them exactly up to structural equality `deq` (`KeyFaithful`: a fact about `json.dumps`, taken as a
+hypothesis; necessary: `dt_tight` in `CompareDefaultTight.lean`).
 -/
 namespace N0.Compare
 open N0
@@ -15,14 +16,18 @@ def isRec : Val → Bool
   | .dict _ _ => true
   | _ => false
 
+/-- the same items up to structural equality: every item of either list occurs, up to `deq` (same
+constructors, dictionaries compared key by key, lists item by item in order), equally often in both lists -/
+def permD (xs ys : List Val) : Prop := ∀ z ∈ xs ++ ys, xs.countP (deq z) = ys.countP (deq z)
+
 mutual
 /-- equality up to the order of the non-record items of every list; non-record items are compared
-with strict equality, records are paired in order, dictionaries by key -/
+with structural equality `deq` (as multisets), records are paired in order, dictionaries by key -/
 def eqv : Val → Val → Prop
   | .list c xs, w =>
     match w with
     | .list c' ys => c = c' ∧ eqvRecs xs (ys.filter isRec) ∧
-        (xs.filter (fun v => !isRec v)).Perm (ys.filter (fun v => !isRec v))
+        permD (xs.filter (fun v => !isRec v)) (ys.filter (fun v => !isRec v))
     | _ => False
   | .dict c kvs, w =>
     match w with
@@ -65,26 +70,20 @@ def listItemsK : List (Str × Val) → List Val
   | (_, v) :: rest => listItems v ++ listItemsK rest
 end
 
-/-- `str()` is injective on the non-record list items of both trees and never yields the empty
-string (the key of every record) -/
-def NoStrCollision (a b : Val) : Prop :=
-  (∀ x ∈ listItems a ++ listItems b, ∀ y ∈ listItems a ++ listItems b, pyStr x = pyStr y → x = y) ∧
-  (∀ x ∈ listItems a ++ listItems b, pyStr x ≠ [])
+/-- the key of the non-record list items — `json.dumps(item, sort_keys=True, default=repr)` — identifies them
+exactly up to structural equality, and is never the empty string (the key of every record) -/
+structure KeyFaithful (S : Val → Prop) : Prop where
+  iff : ∀ x y, S x → S y → (jsonVal x = jsonVal y ↔ deq x y = true)
+  ne : ∀ x, S x → jsonVal x ≠ []
 
-/-- every non-record list item is equivalent to itself (fails only for dictionaries with a repeated key) -/
-def ItemsRefl (a b : Val) : Prop := ∀ x ∈ listItems a ++ listItems b, eqv x x
-
-/-- the same statement for an abstract set of values -/
-structure StrInj (S : Val → Prop) : Prop where
-  inj : ∀ x y, S x → S y → pyStr x = pyStr y → x = y
-  ne : ∀ x, S x → pyStr x ≠ []
-  refl : ∀ x, S x → eqv x x
+/-- `KeyFaithful` on the non-record list items (at every depth) of the two trees -/
+def KeyFaithfulOn (a b : Val) : Prop := KeyFaithful (fun z => z ∈ listItems a ++ listItems b)
 
 /-! ### the definition in the form of the specification -/
 
 theorem eqv_list (c c' : Cls) (xs ys : List Val) :
     eqv (.list c xs) (.list c' ys) ↔ (c = c' ∧ eqvRecs xs (ys.filter isRec) ∧
-      (xs.filter (fun v => !isRec v)).Perm (ys.filter (fun v => !isRec v))) := by
+      permD (xs.filter (fun v => !isRec v)) (ys.filter (fun v => !isRec v))) := by
   simp [eqv]
 
 theorem eqv_dict (c c' : Cls) (kvs kvs' : List (Str × Val)) :
@@ -155,10 +154,10 @@ theorem classifyEntry_exactP {cfg : Cfg} (h : NoOpts cfg) (full : Path) (x y : V
 /-- the key of a list item when there is no composite key -/
 def key0 : Val → Str
   | .dict _ _ => []
-  | v => pyStr v
+  | v => jsonVal v
 
 theorem keyOf_noOpts {cfg : Cfg} (h : NoOpts cfg) (p : Path) (v : Val) : keyOf cfg p v = .ok (key0 v) := by
-  cases v <;> simp [keyOf, key0, h.ck, PatArg.pats]
+  cases v <;> simp [keyOf, key0, h.ck, PatArg.pats, transformAt_noOpts h]
 
 theorem keysOf_noOpts {cfg : Cfg} (h : NoOpts cfg) (p : Path) : ∀ xs : List Val, keysOf cfg p xs = .ok (xs.map key0)
   | [] => rfl
@@ -167,7 +166,7 @@ theorem keysOf_noOpts {cfg : Cfg} (h : NoOpts cfg) (p : Path) : ∀ xs : List Va
 theorem key0_rec {v : Val} (h : isRec v = true) : key0 v = [] := by
   cases v <;> simp_all [isRec, key0]
 
-theorem key0_nonrec {v : Val} (h : isRec v = false) : key0 v = pyStr v := by
+theorem key0_nonrec {v : Val} (h : isRec v = false) : key0 v = jsonVal v := by
   cases v <;> simp_all [isRec, key0]
 
 /-- the values of a list of keyed entries -/
@@ -262,7 +261,7 @@ theorem keyedWalk_diffs_ge (cfg : Cfg) (p : Path) (sa oa : Val) : ∀ (xs : List
       rw [hf] at h
       simp only at h
       have hl := kerase_length k sr
-      cases hcl : classifyItem cfg p (p ++ [if i = j then PSeg.idx i else PSeg.idx2 i j]) (p ++ [.idx i]) sa oa x y with
+      cases hcl : classifyItem cfg p (p ++ [if i = j then PSeg.idx i else PSeg.idx2 i j]) (p ++ [if i = j then PSeg.idx i else PSeg.idx2 i j]) sa oa x y with
       | emit r0 s =>
         rw [hcl] at h
         simp only at h
@@ -328,8 +327,11 @@ def GoodV (S : Val → Prop) (y : Val) : Prop :=
 
 /-! ### the list specification, one step at a time -/
 
+/-- the specification of one list level in terms of the keys: records pairwise in order, the keys of the
+non-record items equal as multisets -/
 def ListSpec (xs ys : List Val) : Prop :=
-  eqvRecs xs (ys.filter isRec) ∧ (xs.filter (fun v => !isRec v)).Perm (ys.filter (fun v => !isRec v))
+  eqvRecs xs (ys.filter isRec) ∧
+    ((xs.filter (fun v => !isRec v)).map jsonVal).Perm ((ys.filter (fun v => !isRec v)).map jsonVal)
 
 theorem filter_rec_keys (l : List KE) (hinv : ∀ e ∈ l, e.1 = key0 e.2.2) (hne : ∀ e ∈ l, e.1 ≠ []) :
     (vals l).filter isRec = [] := by
@@ -341,7 +343,8 @@ theorem filter_rec_keys (l : List KE) (hinv : ∀ e ∈ l, e.1 = key0 e.2.2) (hn
   exact hne e he ((hinv e he).trans (key0_rec hr))
 
 theorem spec_nil (ys : List Val) : ListSpec [] ys ↔ ys = [] := by
-  simp only [ListSpec, eqvRecs, List.filter_nil, List.nil_perm, List.filter_eq_nil_iff]
+  simp only [ListSpec, eqvRecs, List.filter_nil, List.map_nil, List.nil_perm, List.map_eq_nil_iff,
+    List.filter_eq_nil_iff]
   constructor
   · intro ⟨h1, h2⟩
     cases ys with
@@ -365,24 +368,165 @@ theorem spec_rec_some {x y : Val} {xs : List Val} {l1 l2 : List KE} {k : Str} {j
     eqvRecs, if_true, List.nil_append, Bool.not_true, Bool.false_eq_true, if_false]
   exact and_assoc
 
-theorem spec_nonrec_none {x : Val} {xs ys : List Val} (hr : isRec x = false) (hn : x ∉ ys) :
+theorem spec_nonrec_none {x : Val} {xs ys : List Val} (hr : isRec x = false)
+    (hn : ∀ y ∈ ys, isRec y = false → jsonVal y ≠ jsonVal x) :
     ¬ ListSpec (x :: xs) ys := by
   intro ⟨_, hp⟩
-  have hm : x ∈ (x :: xs).filter (fun v => !isRec v) := by simp [hr]
+  have hm : jsonVal x ∈ ((x :: xs).filter (fun v => !isRec v)).map jsonVal := by simp [hr]
   have := hp.subset hm
-  simp only [List.mem_filter] at this
-  exact hn this.1
+  simp only [List.mem_map, List.mem_filter] at this
+  obtain ⟨y, ⟨hy, hry⟩, hk⟩ := this
+  exact hn y hy (by simpa using hry) hk
 
-theorem spec_nonrec_some {x : Val} {xs : List Val} {l1 l2 : List KE} {k : Str} {j : Nat}
-    (hr : isRec x = false) :
-    ListSpec (x :: xs) (vals (l1 ++ (k, j, x) :: l2)) ↔ ListSpec xs (vals (l1 ++ l2)) := by
-  simp only [ListSpec, vals, List.map_append, List.map_cons, List.filter_append, List.filter_cons, hr,
-    eqvRecs, Bool.false_eq_true, if_false, Bool.not_false, if_true]
+theorem spec_nonrec_some {x y : Val} {xs : List Val} {l1 l2 : List KE} {k : Str} {j : Nat}
+    (hr : isRec x = false) (hry : isRec y = false) (hk : jsonVal x = jsonVal y) :
+    ListSpec (x :: xs) (vals (l1 ++ (k, j, y) :: l2)) ↔ ListSpec xs (vals (l1 ++ l2)) := by
+  simp only [ListSpec, vals, List.map_append, List.map_cons, List.filter_append, List.filter_cons, hr, hry,
+    eqvRecs, Bool.false_eq_true, if_false, Bool.not_false, if_true, hk]
   constructor
   · intro ⟨h1, hp⟩
-    exact ⟨h1, (List.perm_cons x).1 (hp.trans List.perm_middle)⟩
+    exact ⟨h1, (List.perm_cons (jsonVal y)).1 (hp.trans List.perm_middle)⟩
   · intro ⟨h1, hp⟩
-    exact ⟨h1, ((List.perm_cons x).2 hp).trans List.perm_middle.symm⟩
+    exact ⟨h1, ((List.perm_cons (jsonVal y)).2 hp).trans List.perm_middle.symm⟩
+
+/-! ### keys against structural equality -/
+
+theorem countP_deq_keys {S : Val → Prop} (hS : KeyFaithful S) {z : Val} (hz : S z) :
+    ∀ l : List Val, (∀ w ∈ l, S w) → l.countP (deq z) = (l.map jsonVal).count (jsonVal z)
+  | [], _ => rfl
+  | w :: l, h => by
+    have ih := countP_deq_keys hS hz l (fun v hv => h v (List.mem_cons_of_mem _ hv))
+    have hw := hS.iff z w hz (h w List.mem_cons_self)
+    simp only [List.countP_cons, List.map_cons, List.count_cons, ih]
+    by_cases hd : deq z w = true
+    · have := hw.2 hd
+      simp [hd, this]
+    · have hne : ¬ jsonVal z = jsonVal w := fun e => hd (hw.1 e)
+      have hne' : ¬ jsonVal w = jsonVal z := fun e => hne e.symm
+      simp [hd, hne']
+
+/-- under `KeyFaithful`, "the same items up to `deq`" is "the same keys" -/
+theorem permD_iff_keys {S : Val → Prop} (hS : KeyFaithful S) (A B : List Val) (hA : ∀ z ∈ A, S z) (hB : ∀ z ∈ B, S z) :
+    permD A B ↔ (A.map jsonVal).Perm (B.map jsonVal) := by
+  rw [List.perm_iff_count]
+  constructor
+  · intro h k
+    by_cases hk : k ∈ (A ++ B).map jsonVal
+    · simp only [List.mem_map] at hk
+      obtain ⟨z, hz, rfl⟩ := hk
+      have hSz : S z := by
+        rcases List.mem_append.1 hz with h1 | h1
+        · exact hA z h1
+        · exact hB z h1
+      rw [← countP_deq_keys hS hSz A hA, ← countP_deq_keys hS hSz B hB]
+      exact h z hz
+    · have h1 : k ∉ A.map jsonVal := fun hm => hk (by simp only [List.map_append, List.mem_append]; exact Or.inl hm)
+      have h2 : k ∉ B.map jsonVal := fun hm => hk (by simp only [List.map_append, List.mem_append]; exact Or.inr hm)
+      rw [List.count_eq_zero_of_not_mem h1, List.count_eq_zero_of_not_mem h2]
+  · intro h z hz
+    have hSz : S z := by
+      rcases List.mem_append.1 hz with h1 | h1
+      · exact hA z h1
+      · exact hB z h1
+    rw [countP_deq_keys hS hSz A hA, countP_deq_keys hS hSz B hB]
+    exact h (jsonVal z)
+
+theorem listItemsL_nonrec (xs : List Val) : ∀ z ∈ xs.filter (fun v => !isRec v), z ∈ listItemsL xs := by
+  intro z hz
+  simp only [List.mem_filter, Bool.not_eq_true'] at hz
+  exact (listItemsL_mem xs z hz.1).2 hz.2
+
+/-- the specification of a list level (`eqv`) in terms of the keys -/
+theorem eqv_list_keys {S : Val → Prop} (hS : KeyFaithful S) (c c' : Cls) (xs ys : List Val)
+    (hx : ∀ z ∈ listItemsL xs, S z) (hy : ∀ z ∈ listItemsL ys, S z) :
+    eqv (.list c xs) (.list c' ys) ↔ (c = c' ∧ ListSpec xs ys) := by
+  rw [eqv_list, ListSpec, permD_iff_keys hS _ _ (fun z hz => hx z (listItemsL_nonrec xs z hz))
+    (fun z hz => hy z (listItemsL_nonrec ys z hz))]
+
+/-! ### structural equality implies the specification -/
+
+mutual
+theorem deq_eqv {S : Val → Prop} (hS : KeyFaithful S) (x y : Val) (hx : ∀ z ∈ listItems x, S z)
+    (hy : ∀ z ∈ listItems y, S z) (h : deq x y = true) : eqv x y :=
+  match x, y, hx, hy, h with
+  | .list c xs, .list c' ys, hx, hy, h => by
+    simp only [deq, Bool.and_eq_true, beq_iff_eq] at h
+    simp only [listItems] at hx hy
+    obtain ⟨h1, h2⟩ := deqL_spec hS xs ys hx hy h.2
+    rw [eqv_list_keys hS c c' xs ys hx hy]
+    exact ⟨h.1, h1, by rw [h2]⟩
+  | .dict c kvs, .dict c' kvs', hx, hy, h => by
+    simp only [deq, Bool.and_eq_true, beq_iff_eq, List.all_eq_true] at h
+    simp only [listItems] at hx hy
+    rw [eqv_dict]
+    exact ⟨h.1.1, deqK_spec hS kvs kvs' hx hy h.1.2, h.2⟩
+  | .none, y, _, _, h => by cases y <;> simp_all [deq, eqv]
+  | .bool _, y, _, _, h => by cases y <;> simp_all [deq, eqv]
+  | .int _, y, _, _, h => by cases y <;> simp_all [deq, eqv]
+  | .flt _, y, _, _, h => by cases y <;> simp_all [deq, eqv]
+  | .str _, y, _, _, h => by cases y <;> simp_all [deq, eqv]
+  | .list _ _, .none, _, _, h => by simp [deq] at h
+  | .list _ _, .bool _, _, _, h => by simp [deq] at h
+  | .list _ _, .int _, _, _, h => by simp [deq] at h
+  | .list _ _, .flt _, _, _, h => by simp [deq] at h
+  | .list _ _, .str _, _, _, h => by simp [deq] at h
+  | .list _ _, .dict _ _, _, _, h => by simp [deq] at h
+  | .dict _ _, .none, _, _, h => by simp [deq] at h
+  | .dict _ _, .bool _, _, _, h => by simp [deq] at h
+  | .dict _ _, .int _, _, _, h => by simp [deq] at h
+  | .dict _ _, .flt _, _, _, h => by simp [deq] at h
+  | .dict _ _, .str _, _, _, h => by simp [deq] at h
+  | .dict _ _, .list _ _, _, _, h => by simp [deq] at h
+termination_by structural x
+
+theorem deqL_spec {S : Val → Prop} (hS : KeyFaithful S) (xs ys : List Val) (hx : ∀ z ∈ listItemsL xs, S z)
+    (hy : ∀ z ∈ listItemsL ys, S z) (h : deqL xs ys = true) :
+    eqvRecs xs (ys.filter isRec) ∧
+      (xs.filter (fun v => !isRec v)).map jsonVal = (ys.filter (fun v => !isRec v)).map jsonVal :=
+  match xs, ys, hx, hy, h with
+  | [], [], _, _, _ => by simp [eqvRecs]
+  | [], _ :: _, _, _, h => by simp [deqL] at h
+  | _ :: _, [], _, _, h => by simp [deqL] at h
+  | x :: xs, y :: ys, hx, hy, h => by
+    simp only [deqL, Bool.and_eq_true] at h
+    have hx1 : ∀ z ∈ listItems x, S z := fun z hz => hx z (by simp [listItemsL, hz])
+    have hx2 : ∀ z ∈ listItemsL xs, S z := fun z hz => hx z (by simp [listItemsL, hz])
+    have hy1 : ∀ z ∈ listItems y, S z := fun z hz => hy z (by simp [listItemsL, hz])
+    have hy2 : ∀ z ∈ listItemsL ys, S z := fun z hz => hy z (by simp [listItemsL, hz])
+    obtain ⟨ih1, ih2⟩ := deqL_spec hS xs ys hx2 hy2 h.2
+    have hrr : isRec x = isRec y := by
+      have := deq_tyOf h.1
+      cases x <;> cases y <;> simp_all [tyOf, isRec]
+    cases hr : isRec x with
+    | true =>
+      have hry : isRec y = true := by rw [← hrr]; exact hr
+      have := deq_eqv hS x y hx1 hy1 h.1
+      simp [eqvRecs, hr, hry, this, ih1, ih2]
+    | false =>
+      have hry : isRec y = false := by rw [← hrr]; exact hr
+      have hSx : S x := hx x (by simp [listItemsL, hr])
+      have hSy : S y := hy y (by simp [listItemsL, hry])
+      have hk : jsonVal x = jsonVal y := (hS.iff x y hSx hSy).2 h.1
+      simp [eqvRecs, hr, hry, ih1, ih2, hk]
+termination_by structural xs
+
+theorem deqK_spec {S : Val → Prop} (hS : KeyFaithful S) (kvs o : List (Str × Val)) (hx : ∀ z ∈ listItemsK kvs, S z)
+    (hy : ∀ z ∈ listItemsK o, S z) (h : deqK kvs o = true) : eqvK kvs o :=
+  match kvs, hx, h with
+  | [], _, _ => by simp [eqvK]
+  | (k, v) :: rest, hx, h => by
+    simp only [deqK, Bool.and_eq_true] at h
+    have hx1 : ∀ z ∈ listItems v, S z := fun z hz => hx z (by simp [listItemsK, hz])
+    have hx2 : ∀ z ∈ listItemsK rest, S z := fun z hz => hx z (by simp [listItemsK, hz])
+    have ih := deqK_spec hS rest o hx2 hy h.2
+    cases hl : Val.lookup k o with
+    | none => rw [hl] at h; simp at h
+    | some w =>
+      rw [hl] at h
+      have := deq_eqv hS v w hx1 (fun z hz => hy z (listItemsK_lookup o k w hl z hz)) h.1
+      simp [eqvK, hl, this, ih]
+termination_by structural kvs
+end
 
 /-! ### dictionaries -/
 
@@ -409,7 +553,7 @@ theorem eqvK_eq_common : ∀ (kvs o : List (Str × Val)),
 /-! ### the keyed comparison is exact -/
 
 mutual
-theorem sub_keyed_exact (cfg : Cfg) (h : NoOpts cfg) (hd : cfg.direct = false) (S : Val → Prop) (hS : StrInj S)
+theorem sub_keyed_exact (cfg : Cfg) (h : NoOpts cfg) (hd : cfg.direct = false) (S : Val → Prop) (hS : KeyFaithful S)
     (site : Site) (p : Path) (v w : Val) (hv : isN0 v = true) (hw : isN0 w = true)
     (hiv : ∀ z ∈ listItems v, S z) (hiw : ∀ z ∈ listItems w, S z)
     (ht : tyOf v = tyOf w) (hs : isPyScalar v = false) :
@@ -432,8 +576,8 @@ theorem sub_keyed_exact (cfg : Cfg) (h : NoOpts cfg) (hd : cfg.direct = false) (
         (mkEntries 0 (xs.map key0) xs) (mkEntries 0 (ys.map key0) ys) 0 hxs hiv ho
       refine ⟨r, ?_, ?_⟩
       · simp [sub, hd, excluded_noOpts h, keysOf_noOpts h, hr]
-      · rw [hiff (mkEntries_keys0 xs 0), mkEntries_vals0]
-        simp [eqv, ListSpec]
+      · rw [hiff (mkEntries_keys0 xs 0), mkEntries_vals0, eqv_list_keys hS _ _ xs ys hiv hiw]
+        simp
     | _ => simp [tyOf] at ht
   | .dict c kvs, w, hv, hw, hiv, hiw, ht, _ => by
     cases w with
@@ -460,7 +604,7 @@ theorem sub_keyed_exact (cfg : Cfg) (h : NoOpts cfg) (hd : cfg.direct = false) (
   | .str _, _, _, _, _, _, _, hs => by simp [isPyScalar] at hs
 termination_by structural v
 
-theorem dictWalk_keyed_exact (cfg : Cfg) (h : NoOpts cfg) (hd : cfg.direct = false) (S : Val → Prop) (hS : StrInj S)
+theorem dictWalk_keyed_exact (cfg : Cfg) (h : NoOpts cfg) (hd : cfg.direct = false) (S : Val → Prop) (hS : KeyFaithful S)
     (p : Path) (sa oa : Val) (skvs okvs : List (Str × Val))
     (kvs : List (Str × Val)) (still : Bool) (hk : isN0K kvs = true) (ho : isN0K okvs = true)
     (hik : ∀ z ∈ listItemsK kvs, S z) (hio : ∀ z ∈ listItemsK okvs, S z) :
@@ -500,7 +644,7 @@ theorem dictWalk_keyed_exact (cfg : Cfg) (h : NoOpts cfg) (hd : cfg.direct = fal
         exact and_assoc.symm
 termination_by structural kvs
 
-theorem keyedWalk_keyed_exact (cfg : Cfg) (h : NoOpts cfg) (hd : cfg.direct = false) (S : Val → Prop) (hS : StrInj S)
+theorem keyedWalk_keyed_exact (cfg : Cfg) (h : NoOpts cfg) (hd : cfg.direct = false) (S : Val → Prop) (hS : KeyFaithful S)
     (p : Path) (sa oa : Val) (xs : List Val) (sr orr : List KE) (i : Nat)
     (hx : isN0L xs = true) (hix : ∀ z ∈ listItemsL xs, S z)
     (ho : ∀ e ∈ orr, e.1 = key0 e.2.2 ∧ GoodV S e.2.2) :
@@ -537,10 +681,10 @@ theorem keyedWalk_keyed_exact (cfg : Cfg) (h : NoOpts cfg) (hd : cfg.direct = fa
           exact spec_rec_none hrec (filter_rec_keys orr (fun e he => (ho e he).1) hne)
         | false =>
           apply spec_nonrec_none hrec
-          intro hm
+          intro y hm hry hk
           simp only [vals, List.mem_map] at hm
           obtain ⟨e, he, hex⟩ := hm
-          exact hne e he (by rw [(ho e he).1, hex])
+          exact hne e he (by rw [(ho e he).1, hex, key0_nonrec hry, key0_nonrec hrec, hk])
       constructor
       · intro h0; omega
       · intro hsp; exact absurd hsp hnot
@@ -563,8 +707,8 @@ theorem keyedWalk_keyed_exact (cfg : Cfg) (h : NoOpts cfg) (hd : cfg.direct = fa
         (eraseKey (key0 x) orr) (i + 1) hx.2 hix2 ho'
       have hpair : ∃ r1, keyedWalk cfg p sa oa i (x :: xs) ((x :: xs).map key0) sr orr = .ok (r1 ++ r') ∧
           (r1.diffs = 0 ↔ eqv x y) := by
-        have hce := classifyItem_exactP h p (p ++ [if i = j then PSeg.idx i else PSeg.idx2 i j]) (p ++ [.idx i]) sa oa x y
-        cases hcl : classifyItem cfg p (p ++ [if i = j then PSeg.idx i else PSeg.idx2 i j]) (p ++ [.idx i]) sa oa x y with
+        have hce := classifyItem_exactP h p (p ++ [if i = j then PSeg.idx i else PSeg.idx2 i j]) (p ++ [if i = j then PSeg.idx i else PSeg.idx2 i j]) sa oa x y
+        cases hcl : classifyItem cfg p (p ++ [if i = j then PSeg.idx i else PSeg.idx2 i j]) (p ++ [if i = j then PSeg.idx i else PSeg.idx2 i j]) sa oa x y with
         | emit r0 s =>
           rw [hcl] at hce
           exact ⟨r0, by simp [keyedWalk, hf, hcl, hr'], hce⟩
@@ -592,20 +736,18 @@ theorem keyedWalk_keyed_exact (cfg : Cfg) (h : NoOpts cfg) (hd : cfg.direct = fa
         have hn := filter_rec_keys l1 (hinv l1 (fun e he => by rw [horr]; simp [he])) hl1
         exact (spec_rec_some hrec hry hn).symm
       | false =>
-        have hkx : key0 x = pyStr x := key0_nonrec hrec
+        have hkx : key0 x = jsonVal x := key0_nonrec hrec
         have hry : isRec y = false := by
           cases hry : isRec y with
           | false => rfl
           | true =>
             rw [key0_rec hry, hkx] at hky
             exact absurd hky (hS.ne x (hxS hrec))
-        have hxy : x = y := by
-          apply hS.inj x y (hxS hrec) (hy.2.2 hry)
-          rw [← hkx, hky, key0_nonrec hry]
-        subst hxy
-        have hxx : eqv x x := hS.refl x (hxS hrec)
-        rw [spec_nonrec_some hrec]
-        simp [hxx]
+        have hk : jsonVal x = jsonVal y := by rw [← hkx, hky, key0_nonrec hry]
+        have hdq : deq x y = true := (hS.iff x y (hxS hrec) (hy.2.2 hry)).1 hk
+        have hxy : eqv x y := deq_eqv hS x y hix1 hy.2.1 hdq
+        rw [spec_nonrec_some hrec hry hk]
+        simp [hxy]
 termination_by structural xs
 end
 
@@ -615,16 +757,14 @@ end
 /-- the default comparison says "equal" exactly for trees that are equal up to the order of the
 non-record items of each list -/
 theorem default_exact (fl : Flags) (a b : Val) (ha : isN0 a = true) (hb : isN0 b = true) (hr : RootPair a b)
-    (hc : NoStrCollision a b) (hi : ItemsRefl a b) :
+    (hc : KeyFaithfulOn a b) :
     ∃ r, compareTop (Cfg.default fl false) a b = .ok r ∧ (r.diffs = 0 ↔ eqv a b) := by
   rw [compareTop_eq_sub _ a b hr]
-  have hS : StrInj (fun z => z ∈ listItems a ++ listItems b) :=
-    ⟨fun x y hx hy => hc.1 x hx y hy, hc.2, hi⟩
-  exact sub_keyed_exact _ (noOpts_default fl false) rfl _ hS .entry [] a b ha hb
+  exact sub_keyed_exact _ (noOpts_default fl false) rfl _ hc .entry [] a b ha hb
     (fun z hz => List.mem_append_left _ hz) (fun z hz => List.mem_append_right _ hz)
     (rootPair_ty hr).1 (rootPair_ty hr).2
 
-/-! ### `ItemsRefl` holds when dictionaries have unique keys -/
+/-! ### trees with unique dictionary keys are equivalent to themselves -/
 
 def noDupK : List (Str × Val) → Bool
   | [] => true
@@ -677,7 +817,7 @@ theorem eqv_refl_uniq (v : Val) (hu : uniqKeys v = true) : eqv v v :=
   | .list c xs, hu => by
     simp only [uniqKeys] at hu
     simp only [eqv, true_and]
-    exact ⟨eqvRecs_refl_uniq xs hu, List.Perm.refl _⟩
+    exact ⟨eqvRecs_refl_uniq xs hu, fun _ _ => rfl⟩
   | .dict c kvs, hu => by
     simp only [uniqKeys, Bool.and_eq_true] at hu
     simp only [eqv, true_and]
@@ -765,64 +905,67 @@ theorem uniq_itemsK (kvs : List (Str × Val)) (hu : uniqKeysK kvs = true) : ∀ 
 termination_by structural kvs
 end
 
-theorem itemsRefl_of_uniq (a b : Val) (ha : uniqKeys a = true) (hb : uniqKeys b = true) : ItemsRefl a b := by
-  intro x hx
-  rw [List.mem_append] at hx
-  cases hx with
-  | inl h => exact eqv_refl_uniq x (uniq_items a ha x h)
-  | inr h => exact eqv_refl_uniq x (uniq_items b hb x h)
-
-/-- the form for genuine Python values (dictionaries never repeat a key) -/
-theorem default_exact_uniq (fl : Flags) (a b : Val) (ha : isN0 a = true) (hb : isN0 b = true) (hr : RootPair a b)
-    (hua : uniqKeys a = true) (hub : uniqKeys b = true) (hc : NoStrCollision a b) :
-    ∃ r, compareTop (Cfg.default fl false) a b = .ok r ∧ (r.diffs = 0 ↔ eqv a b) :=
-  default_exact fl a b ha hb hr hc (itemsRefl_of_uniq a b hua hub)
-
-/-- a tree compared with itself reports nothing -/
+/-- a tree (with unique dictionary keys) compared with itself reports nothing -/
 theorem default_refl (fl : Flags) (a : Val) (ha : isN0 a = true) (hr : RootPair a a)
-    (hua : uniqKeys a = true) (hc : NoStrCollision a a) :
+    (hua : uniqKeys a = true) (hc : KeyFaithfulOn a a) :
     ∃ r, compareTop (Cfg.default fl false) a a = .ok r ∧ r.diffs = 0 := by
-  obtain ⟨r, h1, h2⟩ := default_exact_uniq fl a a ha ha hr hua hua hc
+  obtain ⟨r, h1, h2⟩ := default_exact fl a a ha ha hr hc
   exact ⟨r, h1, h2.2 (eqv_refl_uniq a hua)⟩
 
 
-/-! ### the hypotheses are needed -/
+/-! ### the witnesses of the fixed findings, and why a hypothesis on the key remains in the model -/
 
 /-- `{'a': [1, '1']}` -/
 def cexA : Val := .dict .n0 [(['a'], .list .n0 [.int 1, .str ['1']])]
 /-- `{'a': ['1', 1]}` -/
 def cexB : Val := .dict .n0 [(['a'], .list .n0 [.str ['1'], .int 1])]
 
-/-- finding C07-b: `{'a': [1, '1']}` and `{'a': ['1', 1]}` are equal up to order but `str(1) == str('1')`
-pairs `1` with `'1'`, so two differences are reported -/
-theorem collision_cex :
-    (compareTop (Cfg.default Flags.init false) cexA cexB).map Res.diffs = .ok 2 ∧ eqv cexA cexB ∧
+/-- fixed finding C07-b: `{'a': [1, '1']}` and `{'a': ['1', 1]}` are equal up to order; the keys `1` and `"1"`
+differ, nothing is reported (before the fix: `str(1) == str('1')` paired `1` with `'1'`, two differences) -/
+theorem collision_fixed :
+    (compareTop (Cfg.default Flags.init false) cexA cexB).map Res.diffs = .ok 0 ∧
       isN0 cexA = true ∧ isN0 cexB = true ∧ RootPair cexA cexB ∧ uniqKeys cexA = true ∧ uniqKeys cexB = true := by
-  refine ⟨by decide, ?_, by decide, by decide, trivial, by decide, by decide⟩
-  simp [cexA, cexB, eqv, eqvK, Val.lookup, eqvRecs, isRec, hasKey]
-  exact List.Perm.swap _ _ _
+  refine ⟨by decide, by decide, by decide, trivial, by decide, by decide⟩
 
 /-- `['', {}]` -/
 def cexE1 : Val := .list .n0 [.str [], .dict .n0 []]
 /-- `[{}, '']` -/
 def cexE2 : Val := .list .n0 [.dict .n0 [], .str []]
 
-/-- the empty string has the key of a record: `['', {}]` vs `[{}, '']` -/
-theorem emptykey_cex :
-    (compareTop (Cfg.default Flags.init false) cexE1 cexE2).map Res.diffs = .ok 2 ∧ eqv cexE1 cexE2 ∧
-      (∀ x ∈ listItems cexE1 ++ listItems cexE2, ∀ y ∈ listItems cexE1 ++ listItems cexE2, pyStr x = pyStr y → x = y) := by
-  refine ⟨by decide, ?_, by decide⟩
-  simp [cexE1, cexE2, eqv, eqvK, eqvRecs, isRec, List.filter]
+/-- fixed: the empty string has the key `""`, not the key `''` of a record: `['', {}]` vs `[{}, '']` -/
+theorem emptykey_fixed :
+    (compareTop (Cfg.default Flags.init false) cexE1 cexE2).map Res.diffs = .ok 0 := by decide
 
-/-- `[[{'a': 1, 'a': 2}]]` — not a Python value: the inner dictionary repeats a key -/
-def cexD : Val := .list .n0 [.list .n0 [.dict .n0 [(['a'], .int 1), (['a'], .int 2)]]]
+/-- `{'a': [[{'x': 1, 'y': 2}]]}` -/
+def cexO1 : Val := .dict .n0 [(['a'], .list .n0 [.list .n0 [.dict .n0 [(['x'], .int 1), (['y'], .int 2)]]])]
+/-- `{'a': [[{'y': 2, 'x': 1}]]}` -/
+def cexO2 : Val := .dict .n0 [(['a'], .list .n0 [.list .n0 [.dict .n0 [(['y'], .int 2), (['x'], .int 1)]]])]
 
-/-- without `ItemsRefl` (unique keys) the statement fails in the model: the nested list is a non-record
-item and equal to itself, but comparing it with itself reports the second `a` against the first -/
-theorem dupkey_cex :
-    (compareTop (Cfg.default Flags.init false) cexD cexD).map Res.diffs = .ok 1 ∧ eqv cexD cexD ∧
-      NoStrCollision cexD cexD := by
-  refine ⟨by decide, ?_, by unfold NoStrCollision; decide⟩
-  simp [cexD, eqv, eqvRecs, isRec]
+/-- fixed finding C07-c: the key of a list nested in a list does not depend on the order of dictionary keys -/
+theorem keyorder_fixed :
+    (compareTop (Cfg.default Flags.init false) cexO1 cexO2).map Res.diffs = .ok 0 ∧
+      jsonVal (.list .n0 [.dict .n0 [(['x'], .int 1), (['y'], .int 2)]])
+        = jsonVal (.list .n0 [.dict .n0 [(['y'], .int 2), (['x'], .int 1)]]) ∧
+      deq (.list .n0 [.dict .n0 [(['x'], .int 1), (['y'], .int 2)]])
+        (.list .n0 [.dict .n0 [(['y'], .int 2), (['x'], .int 1)]]) = true := by decide
+
+/-- `[1.0-with-the-lexeme-"1", 1]` — not a Python value: the `repr` of a float is never `1` -/
+def cexF1 : Val := .list .n0 [.flt ['1'], .int 1]
+def cexF2 : Val := .list .n0 [.int 1, .flt ['1']]
+
+/-- why `KeyFaithful` remains a hypothesis in the model: floats are opaque lexemes, and a lexeme that is not the
+`repr` of a float (`1`) collides with an `int` -/
+theorem float_lexeme_cex :
+    (compareTop (Cfg.default Flags.init false) cexF1 cexF2).map Res.diffs = .ok 2 ∧
+      isN0 cexF1 = true ∧ isN0 cexF2 = true ∧ RootPair cexF1 cexF2 ∧ uniqKeys cexF1 = true ∧ uniqKeys cexF2 = true ∧
+      jsonVal (.flt ['1']) = jsonVal (.int 1) := by
+  refine ⟨by decide, by decide, by decide, trivial, by decide, by decide, by decide⟩
+
+theorem float_lexeme_eqv : eqv cexF1 cexF2 := by
+  simp only [cexF1, cexF2, eqv, eqvRecs, isRec, List.filter, true_and]
+  refine ⟨by simp [eqvRecs, isRec], ?_⟩
+  intro z _
+  simp only [Bool.not_false, List.countP_cons, List.countP_nil]
+  omega
 
 end N0.Compare
